@@ -12,6 +12,8 @@ Section Spec.
   Variable unk_ok : bool.
   (* requirement on the element type at the axis (e.g. flatten needs lists there) *)
   Variable fchk : ty -> bool.
+  (* may the action apply to the characters of a string node? *)
+  Variable str_ok : bool.
 
   (* type-level check: is the axis reachable in every branch?  (fuel = size of the type) *)
   Fixpoint check_ax (t : ty) (d axis : Z) {struct t} : res unit :=
@@ -19,7 +21,10 @@ Section Spec.
     match t with
     | TNum _ => Err EValue
     | TUnk => if unk_ok then Ok tt else Err EValue
-    | TList _ _ t' => if ax =? d + 1 then (if fchk t' then Ok tt else Err EValue) else check_ax t' (d + 1) ax
+    | TList _ str t' =>
+        if ax =? d + 1 then
+          (if fchk t' && (str_ok || match str with None => true | Some _ => false end) then Ok tt else Err EValue)
+        else check_ax t' (d + 1) ax
     | TOpt t' => check_ax t' d ax
     | TRec _ ts =>
         (fix all (l : list ty) : res unit :=
@@ -109,6 +114,9 @@ Section Model.
   Variable g : option akind -> content -> res content.
   (* result below an EmptyArray when the axis is deeper *)
   Variable unk : res content.
+  Variable str_ok : bool.
+  Definition gs (p : option akind) (c : content) : res content :=
+    if is_strk p && negb str_ok then Err EValue else g p c.
 
   Fixpoint model_axp (p : option akind) (c : content) (d axis : Z) {struct c} : res content :=
     do ax <- resolve_axis (type_of_p p c) d axis;
@@ -116,11 +124,11 @@ Section Model.
     | Numpy _ _ _ => Err EValue
     | Empty => unk
     | ListOffset w o c' =>
-        if ax =? d + 1 then g p c else rmap (ListOffset w o) (model_axp None c' (d + 1) ax)
+        if ax =? d + 1 then gs p c else rmap (ListOffset w o) (model_axp None c' (d + 1) ax)
     | ListA w s e c' =>
-        if ax =? d + 1 then g p c else rmap (ListA w s e) (model_axp None c' (d + 1) ax)
+        if ax =? d + 1 then gs p c else rmap (ListA w s e) (model_axp None c' (d + 1) ax)
     | Regular c' size zl =>
-        if ax =? d + 1 then g p c else rmap (fun x => Regular x size zl) (model_axp None c' (d + 1) ax)
+        if ax =? d + 1 then gs p c else rmap (fun x => Regular x size zl) (model_axp None c' (d + 1) ax)
     | Indexed w ix c' => rmap (Indexed w ix) (model_axp None c' d ax)
     | IndexedOption w ix c' => rmap (IndexedOption w ix) (model_axp None c' d ax)
     | ByteMasked m vw c' => rmap (ByteMasked m vw) (model_axp None c' d ax)
